@@ -393,9 +393,37 @@ pub fn corrupt(bt: &mut Built, little: bool, sel: u16, value: CorruptVal) -> Str
     if bt.fields.is_empty() {
         return String::new();
     }
+    let read = |b: &[u8], f: &Field| -> u64 {
+        let mut v = 0u64;
+        for i in 0..f.width {
+            let byte = b[f.off + if little { i } else { f.width - 1 - i }] as u64;
+            v |= byte << (8 * i);
+        }
+        v
+    };
+    if let CorruptVal::NameEdge(delta) = value {
+        // a name offset (DT_SONAME value, a section's sh_name) placed at the very end of its string
+        // table: table size + delta, delta in -2..=2
+        let cands: Vec<Field> = bt.fields.iter().filter(|f| f.name.ends_with(".sh_name") || f.name.contains("(SONAME).d_val")).cloned().collect();
+        if cands.is_empty() {
+            return String::new();
+        }
+        let f = cands[((sel as usize) * cands.len()) >> 16].clone();
+        let size_field = if f.name.contains("(SONAME)") {
+            bt.fields.iter().find(|x| x.name.contains("(STRSZ).d_val")).or_else(|| bt.fields.iter().find(|x| x.name.contains("(.dynstr).sh_size")))
+        } else {
+            bt.fields.iter().find(|x| x.name.contains("(.shstrtab).sh_size"))
+        };
+        let Some(sf) = size_field.cloned() else { return String::new() };
+        let v = read(&bt.bytes, &sf).wrapping_add(delta as i64 as u64);
+        let mask = if f.width == 8 { u64::MAX } else { (1u64 << (8 * f.width)) - 1 };
+        patch(&mut bt.bytes, f.off, v & mask, f.width, little);
+        return format!("{}:={:#x} (table size {:+})", f.name, v & mask, delta);
+    }
     let f = bt.fields[((sel as usize) * bt.fields.len()) >> 16].clone();
     let len = bt.bytes.len() as u64;
     let v = match value {
+        CorruptVal::NameEdge(_) => unreachable!(),
         CorruptVal::Boundary(i) => BOUNDARY[i as usize % BOUNDARY.len()],
         CorruptVal::LenMinus(k) => len.wrapping_sub(k as u64),
         CorruptVal::LenPlus(k) => len + k as u64,
@@ -412,6 +440,8 @@ pub enum CorruptVal {
     LenMinus(u8),
     LenPlus(u8),
     Raw(u64),
+    /// a name offset at (string table size + delta)
+    NameEdge(i8),
 }
 
 // ---------------------------------------------------------------------------
